@@ -18,7 +18,14 @@ import (
 	"golang.org/x/tools/go/ssa/ssautil"
 )
 
-const repoDir = "/repo"
+// repoDir is /repo; VERIF_REPO points the engine at a scratch copy when a seeded
+// change is evaluated without touching /repo (never used by registered commands).
+var repoDir = func() string {
+	if d := os.Getenv("VERIF_REPO"); d != "" {
+		return d
+	}
+	return "/repo"
+}()
 const modPath = "github.com/pion/rtp"
 
 type KnownFinding struct {
